@@ -4,7 +4,8 @@ ints   : python int (unsigned, normalised to width) | z3 BitVecRef ; i1 may also
 doubles: Fraction (exact, symbolic mode) | float (validation mode, IEEE) | z3 ArithRef (Real)
 ptrs   : Ptr(obj, off)  obj = int object id | "@fname" | 0 (null) ; off = python int | z3 BV64
 """
-import math
+import math, sys
+sys.set_int_max_str_digits(0)
 from fractions import Fraction
 import z3
 
@@ -122,6 +123,15 @@ def realz(v):
     raise EngineError("cannot make real of %r" % (v,))
 
 
+def _cap(r):
+    """exact rationals of concrete computations are rounded to double once they grow beyond 1024-bit denominators
+    (long concrete chains, e.g. adaptive step sizes): the same rounding the machine applies at every step"""
+    if r.denominator.bit_length() > 1024 or r.numerator.bit_length() > 2048:
+        f = float(r)
+        return Fraction(f) if f == f and f not in (float("inf"), float("-inf")) else f
+    return r
+
+
 class FP:
     """floating point operations; `exact` selects Fraction (symbolic runs) or float (validation runs)."""
 
@@ -148,17 +158,17 @@ class FP:
                 a = Fraction(a)
                 b = Fraction(b)
                 if op == "fadd":
-                    return a + b
+                    return _cap(a + b)
                 if op == "fsub":
-                    return a - b
+                    return _cap(a - b)
                 if op == "fmul":
-                    return a * b
+                    return _cap(a * b)
                 if op == "fdiv":
                     if b == 0:
                         if a == 0:
                             return float("nan")
                         return float("inf") if a > 0 else float("-inf")
-                    return a / b
+                    return _cap(a / b)
                 if op == "frem":
                     return Fraction(math.fmod(a, b))
             a = float(a)
